@@ -158,11 +158,12 @@ def run(ctx):
             raise tlc.TLCMachineryError(f"ShampooDist column model violates {r.violated}")
     tasks = attach_spec([make_task(rng, "fsdp") for _ in range(60 if quick else 600)] + [make_task(rng, "hsdp") for _ in range(30 if quick else 300)])
     tasks = [t for t in tasks if usable(t)]
-    results = sp.pool_map(dc.run_shard_task, tasks)
+    results = sp.sim_map(dc.run_shard_task, tasks, lambda r: bool(r.get("crash") or r.get("verdict") or r.get("param_mismatch") or any((r.get("errors") or {}).values())))
+    ctx.put("worlds_not_reproduced_on_rerun", sum(1 for r in results if r.get("_flaky_first_run")))
     evaluate(ctx, tasks, results, "C07")
     # real torch FSDP in the loop: its shard metadata must be the spec's flat-parameter model with 16-byte alignment
     mtasks = attach_spec([{"shapes": rng.choice(SHAPES), "S": rng.choice([1, 2, 3, 4]), "align": 4} for _ in range(16 if quick else 120)])
-    for t, r in zip(mtasks, sp.pool_map(dc.fsdp_metadata_task, mtasks)):
+    for t, r in zip(mtasks, sp.pool_map(dc.fsdp_metadata_task, mtasks, fresh=True)):
         ctx.add("evaluations")
         if "crash" in r:
             raise tlc.TLCMachineryError("FSDP metadata worker crashed:\n" + r["crash"])
